@@ -7,7 +7,9 @@ Streams
      of data/encodings able to encode them: ORACLE load(render(c)) == c on the implementation (needs no model),
      and model == implementation on the same bytes;
  (c) damaged files (byte edits, line shuffles, hostile lines): model == implementation, error line included;
- (d) detect_encoding / Codecs.open line splitting on separator-laden text; str.isspace table.
+ (d) detect_encoding / Codecs.open line splitting on separator-laden text; str.isspace table;
+ (e) sequences of files with different charsets spelling the same escaped bytes, loaded by one fresh process in varying order:
+     ORACLE load(render(c)) == c for every file of the sequence.
 """
 import codecs
 import os
@@ -31,7 +33,7 @@ TRUSTED = [
     'extraction (ExtrOcamlBasic only) + ocaml/driver.ml; this harness (printer, canonicalisers)',
 ]
 ASSUME = ['the codec of the file is ASCII-compatible and stateless on the rendered text (checked per case: encode/decode round trip)',
-          'C10_load_render_partial: the line lexer round trip is proved per line kind; see notes/C10.md for the composition']
+          'C10_load_po_render: the whole-file decode and codecs.lookup are oracle hypotheses of the theorem (answered by CPython in the harness)']
 
 _impl = {}
 
@@ -446,6 +448,10 @@ def render(cat, charset, rng, sp):
 # ---------------------------------------------------------------- catalog generator
 LETTERS = 'abcXYZ019 fF'
 NONASCII = 'éßñЖя中日本語ก€·«»ąęŁ\xa0\xad'
+# character pairs whose encoding in a legacy 8-bit charset is also a valid UTF-8 sequence
+# (ISO-8859-2 / CP1250 D3 A3, D3 B3, C5 B1...; KOI8-R D0 A3, D1 B3; CP1251 D0 B3 ...): spelled as escapes they tell
+# "decoded with the charset of the file" from "decoded with some other charset first"
+UTF8_LOOKALIKES = ['ÓŁ', 'Ół', 'Ĺą', 'Ńł', 'пё', 'яЁ', 'Рі', 'Ã©', 'Ã¤', 'Â£']
 
 
 def gen_text(rng, alphabet, maxlen=12, allow_empty=True):
@@ -456,7 +462,7 @@ def gen_text(rng, alphabet, maxlen=12, allow_empty=True):
 def gen_catalog(rng, charset_name, rich):
     alpha = list(LETTERS) + ['\\', '"', '\n', '\t', '\r', '\x07', '\x08', '\x0c', '\x0b', '\x00', '\x1b', '\x7f', '%', 'x', 'n', '8', '9', '7', 'a']
     if rich:
-        alpha += list(NONASCII) + SPLITTERS
+        alpha += list(NONASCII) + SPLITTERS + UTF8_LOOKALIKES
     calpha = [c for c in alpha if c not in '\n'] + [' ', '#', ',', ':', '|', '~', '.']
 
     def ctext(nonempty=True):
@@ -581,6 +587,82 @@ def damage(raw, rng):
     return b'\n'.join(lines)
 
 
+
+# ---------------------------------------------------------------- (e) several files in one process
+def escape_spellings(b):
+    return [''.join('\\%03o' % x for x in b), ''.join('\\x%02x' % x for x in b), ''.join('\\x%02X' % x for x in b),
+            ''.join(('\\%o' % x) if i == len(b) - 1 else ('\\%03o' % x) for i, x in enumerate(b))]
+
+
+def seq_file(cs, esc, key):
+    raw = ('msgid ""\nmsgstr "Content-Type: text/plain; charset=%s\\n"\n\nmsgid "%s"\nmsgstr "%s"\n' % (cs, key, esc)).encode('ascii')
+    return raw
+
+
+def seq_expected(cs, text, key):
+    blank = {'msgctxt': None, 'msgid_plural': None, 'plural': [], 'obsolete': False, 'comment': '', 'tcomment': '', 'occ': [], 'flags': [],
+             'pc': None, 'pm': None, 'pp': None}
+    return canon_file(cs, 0, 0, '', [dict(blank, msgid='', msgstr='Content-Type: text/plain; charset=%s\n' % cs),
+                                     dict(blank, msgid=key, msgstr=text)])
+
+
+def gen_sequences(rng, css, n):
+    """sequences of files with DIFFERENT charsets spelling the SAME escaped bytes, to be loaded one after the other
+    by one fresh process: what a file decodes to must not depend on the files loaded before it"""
+    pool = []
+    singles = [bytes([x]) for x in (0xa1, 0xa3, 0xb1, 0xb3, 0xbf, 0xc0, 0xd3, 0xe6, 0xe9, 0xf1, 0xfe)]
+    pairs = [bytes([a, b]) for a in (0xc2, 0xc3, 0xc5, 0xd0, 0xd1, 0xd3, 0xdf) for b in (0x80, 0xa3, 0xa9, 0xb1, 0xb3, 0xbf)]
+    triples = [b'\xe2\x80\x9c', b'\xe0\xb8\x81', b'\xef\xbb\xbf']
+    for b in singles + pairs + triples:
+        dec = {}
+        for cs in css + ['UTF-8']:
+            try:
+                t = b.decode(cs)
+            except UnicodeError:
+                continue
+            if t.encode(cs) == b and not any(ch in '\\"\n' for ch in t):
+                dec[cs] = t
+        if len(set(dec.values())) >= 2:
+            pool.append((b, dec))
+    seqs = []
+    for i in range(n):
+        b, dec = rng.choice(pool)
+        names = sorted(dec)
+        # at least two charsets with different readings of the bytes
+        while True:
+            pick = rng.sample(names, min(len(names), rng.choice([2, 2, 3, 4])))
+            if len(set(dec[c] for c in pick)) >= 2:
+                break
+        esc = rng.choice(escape_spellings(b))
+        if rng.random() < 0.3:
+            esc = 'a' + esc + '\\n'
+            wrap = lambda t: 'a' + t + '\n'   # noqa: E731
+        else:
+            wrap = lambda t: t                # noqa: E731
+        seqs.append([(seq_file(cs, esc, 'k%d' % j), seq_expected(cs, wrap(dec[cs]), 'k%d' % j), cs) for j, cs in enumerate(pick)])
+    return seqs
+
+
+def seq_worker(raws):
+    """load the files one after the other in ONE fresh process (forked here, so nothing loaded before is shared)"""
+    import json
+    r, w = os.pipe()
+    pid = os.fork()
+    if pid == 0:
+        try:
+            os.close(r)
+            out = [impl_load(x) for x in raws]
+            with os.fdopen(w, 'w') as f:
+                json.dump(out, f)
+        finally:
+            os._exit(0)
+    os.close(w)
+    with os.fdopen(r) as f:
+        data = f.read()
+    os.waitpid(pid, 0)
+    return json.loads(data) if data else ['child-died'] * len(raws)
+
+
 # ---------------------------------------------------------------- findings
 def classify_failure(facts, raw):
     if facts['max_plural_index'] >= 10:
@@ -616,6 +698,25 @@ def check(ctx):
     quick = ctx.quick()
     shutil.rmtree(os.path.join(common.WORK, 'c10'), ignore_errors=True)
     _setup_impl()
+
+    # ---- (e) sequences of files with different charsets and the same escaped bytes, each sequence in one fresh process
+    css0 = charsets()
+    seqs = gen_sequences(rng, css0, 200 if quick else 5000)
+    sres = common.pmap('harness.c10', 'seq_worker', [[f[0] for f in sq] for sq in seqs], per_case_timeout=120)
+    for sq, got in zip(seqs, sres):
+        if not isinstance(got, list) or len(got) != len(sq):
+            ctx.count('sequence:' + repr(got)[:40])
+            continue
+        ctx.evaluations += len(sq)
+        for k, ((raw, expected, cs), g) in enumerate(zip(sq, got)):
+            ctx.count('sequence:' + g.split(' ')[0])
+            if g != expected:
+                ctx.fail('load-render-sequence',
+                         {'files_loaded_in_this_order_by_one_process': [repr(x[0]) for x in sq[:k + 1]], 'charsets': [x[2] for x in sq[:k + 1]],
+                          'expected_for_last': expected[-200:], 'observed_for_last': g[-200:]},
+                         'load(render(c)) != c for the last file of the sequence (each file alone, or in another order, may load correctly)')
+            else:
+                ctx.nontriv(('s', raw, k))
 
     # ---- (d0) the whitespace table of the model is CPython's
     cps = list(range(0, 0x3100)) + [0xfeff, 0x1d7ce, 0x10ffff]
@@ -655,13 +756,16 @@ def check(ctx):
         if impl.startswith('ok '):
             if '\\' in s:
                 ctx.nontriv(('u', s, cs))
+            if impl.endswith(' 1') != bad_escape_present(s):
+                # C10_unescape_warned_iff_D14: the warning appears exactly when the structural predicate holds
+                ctx.disagree('warned <-> bad_escape', {'string': s, 'charset': cs}, 'bad_escape=%s' % bad_escape_present(s), impl)
             if impl.endswith(' 1'):
                 ctx.count('unescape:warned')
                 ctx.fail('stderr-warning', {'string': s}, 'polib_unescape makes CPython print a SyntaxWarning on stderr',
                          finding='D14' if bad_escape_present(s) else None)
 
     # ---- (b) the printer family
-    css = charsets()
+    css = css0
     ctx.stats['charsets'] = len(css)
     ncat = 250 if quick else 6000
     files = []     # (raw, expected, facts, meta)
@@ -749,7 +853,8 @@ def check(ctx):
         rule='(a) polib_unescape vs model on all strings of length <= %d over a %d-character escape alphabet + random escape-heavy strings under 7 codecs; '
              '(b) generated catalogs rendered with random spelling parameters in every ASCII-compatible charset of data/encodings able to encode them: '
              'oracle load(render(c)) == c on polib.pofile after install_patches, and model == implementation; (c) damaged files: model == implementation '
-             'including the error line and kind; (d) line-separator characters. non-trivial = distinct string containing a backslash, distinct rendered '
+             'including the error line and kind; (d) line-separator characters; (e) sequences of 2-4 files with different charsets and the same escaped '
+             'bytes (incl. byte pairs of legacy 8-bit charsets that are valid UTF-8) loaded by one fresh process. non-trivial = distinct string containing a backslash, distinct rendered '
              'file loading back to its catalog, distinct damaged-file outcome' % (maxlen, len(alpha)),
-        explanation='partial: C10_unescape_roundtrip and C10_machine_roundtrip are proved for all inputs; the line lexer is proved per rendered line '
-                    '(C10_lex_roundtrip) and composed in C10_load_render under the hypotheses named in notes/C10.md; codecs are oracles.')
+        explanation='C10_load_render / C10_open_load_render / C10_load_po_render are proved for every catalog and every spelling of the printer family '
+                    '(guards: nplurals <= 10 (D9); previous-msgid of obsolete entries is None (D22)); codecs are oracles; the tie to /repo is the correspondence.')
